@@ -5,6 +5,8 @@ import EvyV.Props.C02
 import EvyV.Props.C03
 import EvyV.Props.C04
 import EvyV.Props.C05
+import EvyV.Props.C06
+import EvyV.Props.C07
 import EvyV.Props.C08
 import EvyV.Props.C09
 import EvyV.Props.C10
